@@ -18,7 +18,13 @@ func init() {
 			specs[i+1].DepthThor = 3
 		}
 		return engineA("C09", tier, specs,
-			func() []explore.Monitor { return []explore.Monitor{&mon.C09{}} },
+			func() []explore.Monitor {
+				m := &mon.C09{}
+				if tier == "thorough" {
+					m.Diff = scen.Boundary().Events // differential oracle: original vs imported state under every boundary event
+				}
+				return []explore.Monitor{m}
+			},
 			budget(tier, 100*time.Second, 15*time.Minute),
 			"bank and auth state are carried into the fresh chain by funding the same balances (supply follows); the equality oracle covers the ecocredit and data module documents, which is what the property names")
 	}
